@@ -6,6 +6,7 @@ import Rtp.Proofs.H265Fields
 import Rtp.Proofs.H265Parse
 import Rtp.Proofs.H265Rt
 import Rtp.Proofs.H265Trunc
+import Rtp.Proofs.H265Sound
 namespace Rtp.Props.C14
 open Rtp Rtp.Model.H265 Rtp.Pred Rtp.Spec.Rfc7798
 
@@ -83,6 +84,19 @@ example : encode (.ap ⟨false, 48, 0, 1⟩ (some 7) [0x40, 1, 9] [(some 0, [0x4
 example : (Packet.paci ⟨false, 50, 0, 1⟩ false 19 3 true false false false [0xAA, 0xBB, 0x80] [1, 2]).WF false = true ∧
     (Packet.paci ⟨false, 50, 0, 1⟩ false 19 3 true false false false [0xAA, 0xBB, 0x80] [1, 2]).tsci =
       some ⟨0xAA, 0xBB, true, false, 0⟩ := by decide
+
+/-- the converse (beyond what C14 asks; it is what makes the reassembly check meaningful): whenever
+    `H265Packet.Unmarshal` accepts a payload, the fields its accessors report re-encode, by the
+    RFC 7798 grammar, to that very payload — nothing is invented and nothing is dropped; only an
+    aggregation packet may be followed by octets that do not form a further unit.  Every NALUSize()
+    equals the length of its NalUnit(). -/
+theorem c14_decoder_sound (mode : Bool) (p : Option Bytes) (v : Parsed) (h : decode mode p = .ok v) :
+    ∃ b t, p = some b ∧ b = encode v.pkt ++ t ∧ v.sizesOk = true ∧
+      ((∀ hh d f r, v.pkt ≠ .ap hh d f r) → t = []) :=
+  decode_sound mode p v h
+
+example : decode false (some [0x26, 1, 7, 8]) = .ok { pkt := .single ⟨false, 19, 0, 1⟩ none [7, 8], tsci := none, sizesOk := true } := by
+  decide
 
 /-! ## c14_truncated — truncated payloads are rejected -/
 
